@@ -19,7 +19,7 @@ PRELUDE = ("From Coq Require Import List ZArith.\nFrom AV Require Import Agg.Agg
 
 # dyadic p (exact in f64) and integer p (exact for the lengths used: gen/props/c17.py, rank sweep)
 PS = [(50, 1), (0, 1), (100, 1), (25, 1), (75, 1), (90, 1), (99, 1), (1, 1), (33, 1), (25, 2), (199, 2), (399, 4)]
-ITER_KINDS = ["exact", "filter", "chain", "flat"]
+ITER_KINDS = ["exact", "filter", "chain", "flat", "mixed", "mixedrev"]
 ORD_TYPES = ["i8", "i16", "i32", "i64", "u8", "u16", "u32", "u64"]
 MEAN_TYPES = ["i8", "i16", "i32", "u8", "u16", "u32"]
 SHAPES = ["nonempty-then-empty", "empty-first", "long-then-short", "short-then-long", "repeated", "same-multiset-reordered",
